@@ -2,6 +2,7 @@ package props
 
 import (
 	"fmt"
+	"strconv"
 	"testing"
 	"time"
 
@@ -31,6 +32,8 @@ type C14Case struct {
 	Frag   []int   `json:"frag,omitempty"`
 	// Instant evaluates a metric query at one instant (start = end, no step) instead of a grid.
 	Instant bool `json:"instant,omitempty"`
+	// BadPath is the malformed JSON path of shape bad-regex-stage ("a[" when empty).
+	BadPath string `json:"bad_path,omitempty"`
 }
 
 const c14Base = int64(1700000000) * 1e9
@@ -88,7 +91,11 @@ func c14QueryBase(c C14Case) (q string, waves int, mustFail bool) {
 	case "bad-template":
 		return sel + ` | line_format "{{ .foo | nosuchfunction }}"`, 0, true
 	case "bad-regex-stage":
-		return sel + ` | json x="a[" `, 0, true
+		path := c.BadPath
+		if path == "" {
+			path = "a["
+		}
+		return sel + ` | json x=` + strconv.Quote(path) + ` `, 0, true
 	}
 	return sel, 1, false
 }
@@ -252,6 +259,10 @@ func c14Gen(t *rapid.T) C14Case {
 	}
 	c.Frag = genFrag(t)
 	c.Instant = rapid.IntRange(0, 2).Draw(t, "instant") == 0
+	if c.Shape == "bad-regex-stage" {
+		// unbalanced brackets, a dangling dot, nothing at all: malformed beyond doubt
+		c.BadPath = rapid.SampledFrom([]string{"a[", "a[1", `["k`, "a.", "[", "a[0", `["k"`, "a..b", "a[x]"}).Draw(t, "bad-path")
+	}
 	return c
 }
 
